@@ -45,7 +45,7 @@ NAME_BASES = ["item", "name", "val", "x-y", "a.b", "Entry", "node", "k", "class"
 
 
 # ------------------------------------------------------------------ hidden regular models
-def gen_hidden(r, kind, nil_rate=0.08, prims=None):
+def gen_hidden(r, kind, nil_rate=0.08, prims=None, wide=False):
     """A hidden *regular* model in genmodels' description format: every element name is used for one type
     only (names are globally unique), simple-content classes hold Text + attributes, complex ones elements +
     attributes, mixed ones a mixed wildcard whose children are leaves."""
@@ -85,11 +85,16 @@ def gen_hidden(r, kind, nil_rate=0.08, prims=None):
                            "mixed_names": [(nm, r.choice(["str", "int", "bool", "XmlDate"])) for nm in names]})
             j = 1
         else:
-            for _ in range(r.randint(1, 5)):
-                tp = ("class", r.choice(later)) if later and r.random() < 0.4 else ("prim", r.choice(PRIMS))
+            # wide: many optional single children, so that occurrences of one element name have different child sets
+            # (runs of children unknown to a larger occurrence, before / between / after shared ones)
+            for _ in range(r.randint(5, 9) if wide else r.randint(1, 5)):
+                tp = ("class", r.choice(later)) if later and r.random() < (0.25 if wide else 0.4) else ("prim", r.choice(PRIMS))
                 k = r.random()
                 f = {"name": f"f{j}", "kind": "Element", "type": tp, "xml_name": fresh(), "list": k < 0.35,
                      "optional": 0.35 <= k < 0.7}
+                if wide:
+                    f["list"] = tp[0] == "class" and k < 0.6      # repeated complex children: several occurrences per sample
+                    f["optional"] = not f["list"] and k < 0.85
                 if xml and r.random() < nil_rate:
                     f["nillable"] = True
                 if xml and r.random() < 0.25:
@@ -153,7 +158,19 @@ def lexical(v):
 
 def gen_inst(r, m, cname, kind, sparse, tricky, depth=0):
     c = GM.find_class(m, cname)
-    return {"__cls__": cname, "fields": {f["name"]: gen_val(r, m, f, kind, sparse, tricky, depth) for f in c["fields"]}}
+    rec = {"__cls__": cname, "fields": {f["name"]: gen_val(r, m, f, kind, sparse, tricky, depth) for f in c["fields"]}}
+    if m.get("wide"):
+        # presence in runs: consecutive optional children are kept or dropped together, differently per occurrence
+        present = r.random() < 0.5
+        for f in c["fields"]:
+            if r.random() < 0.35:
+                present = not present
+            if f["kind"] == "Element" and f.get("optional") and not f.get("list"):
+                if not present:
+                    rec["fields"][f["name"]] = None
+                elif rec["fields"][f["name"]] is None and not f.get("nillable"):
+                    rec["fields"][f["name"]] = gen_val(r, m, dict(f, optional=False), kind, sparse, tricky, depth)
+    return rec
 
 
 def gen_val(r, m, f, kind, sparse, tricky, depth):
@@ -188,7 +205,9 @@ def gen_set(r, kind, idx):
     tricky = idx % 5 == 4
     # the JsonSerializer writes Decimals as JSON strings (finding F6): half of the JSON sets do without them
     prims = [p for p in PRIMS if p != "Decimal"] if (kind == "json" and idx % 6 == 2) else None
-    m = gen_hidden(r, kind, nil_rate, prims)
+    wide = idx % 4 == 1
+    m = gen_hidden(r, kind, nil_rate, prims, wide)
+    m["wide"] = wide
     k = r.choice([1, 2, 3, 4])
     insts = [gen_inst(r, m, "C0", kind, sparse=(j % 2 == 1), tricky=tricky) for j in range(k)]
     ser = {"indent": None, "ns_map": None, "as_list": False}
@@ -205,7 +224,7 @@ def gen_set(r, kind, idx):
     root_name = m["classes"][0]["meta"]["name"]
     pkg = "gen." + (re.sub(r"\W", "_", root_name) if kind == "json" else "doc")
     return {"kind": kind, "src": GM.render_source(m), "instances": insts, "ser": ser, "package": pkg,
-            "features": {"classes": len(m["classes"]), "samples": k, "mixed": mixed, "nil": nil_rate > 0, "tricky": tricky,
+            "features": {"classes": len(m["classes"]), "samples": k, "mixed": mixed, "nil": nil_rate > 0, "tricky": tricky, "wide": wide,
                          "ns": bool(m["module_ns"]) or any("namespace" in c["meta"] for c in m["classes"])}}
 
 
@@ -217,6 +236,14 @@ WITNESSES = [
         '<r xmlns="urn:a" id="8"><a>3</a><d><e>2.5</e><f>2001-01-01</f></d></r>']},
     {"id": "w-regular-json", "kind": "json", "package": "gen.doc", "samples": [
         '{"name": "x", "items": [{"id": 1}, {"id": 2, "cls": "k"}], "tags": ["a", "b"], "n": null, "f": 1.5, "b": true, "d": "2001-01-01"}']},
+    # one element name, differing child sets: a run of two children unknown to the larger occurrence before a shared one
+    {"id": "w-merge-order-within", "kind": "xml", "samples": [
+        '<x><r><a>1</a><d>1</d><e>1</e><f>1</f><g>1</g></r><r><a>2</a><b>2</b><c>2</c><d>2</d></r></x>']},
+    {"id": "w-merge-order-across", "kind": "xml", "samples": [
+        '<r><a>1</a><d>1</d><e>1</e><f>1</f><g>1</g></r>', '<r><a>2</a><b>2</b><c>2</c><d>2</d><h>3</h><i>4</i><g>2</g></r>',
+        '<r><p>0</p><q>0</q><a>3</a><g>5</g></r>']},
+    {"id": "w-merge-order-json", "kind": "json", "package": "gen.doc", "samples": [
+        '{"a": 1, "d": 1, "e": 1, "f": 1, "g": 1}', '{"a": 2, "b": 2, "c": 2, "d": 2}']},
     {"id": "w-nil-not-first", "kind": "xml", "samples": [
         f'<r><n a="1" {XSI} xsi:nil="true"/><n a="2">5</n></r>']},
     {"id": "w-empty-complex", "kind": "xml", "samples": ['<r><c/></r>', '<r><c a="1"><d>x</d></c></r>']},
@@ -463,7 +490,7 @@ def run(ck: Check):
         sets.append({"kind": rp["kind"], "samples": rp["samples"], "package": rp.get("package") or "gen.doc",
                      "features": {"replay": True}, "id": "replay"})
     else:
-        for w in WITNESSES:
+        for w in ([] if os.environ.get("C13_NO_WITNESS") else WITNESSES):
             sets.append({"kind": w["kind"], "samples": w["samples"], "package": w.get("package") or "gen.doc",
                          "features": {"witness": w["id"]}, "id": w["id"]})
         for i in range(NSETS):
